@@ -5,6 +5,9 @@ VERIF = os.path.dirname(os.path.dirname(os.path.abspath(__file__)))
 
 # id -> (category, technique, text, note, design_ref)
 CHECKS = {
+    'C16': ('exploration', 'monitoring of the real amplgsl.cc function table (built against a stand-in funcadd.h + system GSL) under ASan; derivatives judged by Ridders extrapolation of the same binding\'s values',
+            'All ~340 registered functions are called with regular, integer, boundary and hostile (NaN/Inf/huge) argument vectors in value, first- and second-derivative modes with random dig masks, each twice: no error must mean non-NaN value/partials that agree with numerical differentiation (with reproduction at a neighbouring point before a disagreement counts), errors must be explicit, calls deterministic (random-valued ones after reseeding), no sanitizer report.',
+            'the stand-in funcadd.h fixes the arglist layout for both sides; second partials are indexed by rows as in test/gsl-test.cc; calls exceeding 8 s inside libgsl are counted as inconclusive, not judged; libgsl is uninstrumented', '2/C16'),
     'C13': ('exploration', 'measurement monitoring: the real PLApproximate<Con> output judged by dense sampling + extremum search against long-double libm; guarded hook reports dropped breakpoints',
             'For all 17 function types, parameters, interval shapes, tolerances and integer/continuous arguments the routine the converter calls is executed and its point list measured: strict monotonicity of breakpoints, first/last breakpoint = reported domain, per-segment maximum error in the property\'s abs/rel metric, the periodic reduction at several period factors, exactness of the integer shortcut; hangs are caught by the watchdog.',
             'long-double libm is the reference; sampling (49 points + golden section per segment) can miss narrow spikes; violations on segments spanning breakpoints dropped by the 1e-4 spacing rule are a listed known finding (attribution is exact through the MP_VERIF_HOOKS hook)', '2/C13'),
